@@ -22,7 +22,11 @@ var simDrawN uint64
 //go:linkname simDraws
 func simDraws() uint64 { return simDrawN }
 
-func simNote(kind, n uint32) { simDrawN++ }
+func simNote(kind, n uint32) {
+	if kind == 3 { // only seeded draws count: non-bubble (runtime helper) picks vary with real time
+		simDrawN++
+	}
+}
 
 //go:linkname simSetSelectSeed
 func simSetSelectSeed(s uint64) {
